@@ -523,7 +523,7 @@ def space_case(rng, recipe, op, poison=False, special=False):
     if bases == {'int'}:
         scs = [0, 1, -1, 2, 3, 0.5, 2.5]
     kind = 'div' if 'div' in op else ('pow' if op == 'ipow' else 'any')
-    x = mk_element(rng, recipe, 'pow' if op == 'ipow' else ('div' if op in ('divide', 'ipow_neg') else 'any'))
+    x = mk_element(rng, recipe, 'pow' if op in ('ipow', 'pow') else ('div' if op in ('divide', 'ipow_neg') else 'any'))
     same = rng.random() < 0.2
     y = x if same else mk_element(rng, recipe, kind, share=(x if (kind == 'any' and rng.random() < 0.25) else None))
     if op in ('itruediv', 'truediv', 'divide', 'el_divide', 'truediv_arr', 'divide_noout') and same:
@@ -532,6 +532,11 @@ def space_case(rng, recipe, op, poison=False, special=False):
         x = mk_element(rng, recipe, 'div')
         if same:
             y = x
+    if op.startswith('data:'):
+        same = False
+        dn = op.split(':')[1]
+        x = mk_element(rng, recipe, 'div' if dn == '__rtruediv__' else 'any')
+        y = mk_element(rng, recipe, 'div' if dn in ('__truediv__', '__itruediv__') else 'any')
     c = rng.choice(DIV_SC if op in ('itruediv_s', 'truediv_s') else scs)
     if op == 'rtruediv_s':
         x = mk_element(rng, recipe, 'div')
@@ -648,6 +653,43 @@ def space_case(rng, recipe, op, poison=False, special=False):
                     wop = 'WCopyLeaf %s %s' % (tx.split()[1].rstrip(')'), ctx.term(res, True).split()[1].rstrip(')'))
                 else:
                     wop = '%s %s %s' % ('WNeg' if op == 'neg' else 'WPos', tx, ctx.term(res, True))
+            elif op.startswith('data:'):
+                # the other operand is plain data: nested list / tuple, ndarray (list of ndarrays for a product
+                # space).  The operator wraps it with self.space.element(data) and re-dispatches.
+                import operator as _o
+                _, dn, dk = op.split(':')
+
+                def as_data(el):
+                    if _is_pse(el):
+                        parts = [as_data(pp) for pp in el.parts]
+                        return tuple(parts) if dk == 'tuple' else parts
+                    arr_ = np.array(np.asarray(el), copy=True)
+                    if dk == 'ndarray':
+                        return arr_
+                    return tuple(map(tuple, arr_.reshape(arr_.shape[0], -1).tolist())) if (dk == 'tuple' and arr_.ndim == 2) \
+                        else (tuple(arr_.tolist()) if (dk == 'tuple' and arr_.ndim == 1) else arr_.tolist())
+                data = as_data(y)
+                leaves_y = [np.array(t.data, copy=True) for t in leaf_tensors(y)]
+                th = ctx.hidden_like(y, leaves_y)
+                natural = dk != 'ndarray'      # `ndarray <op> x` is NumPy's ufunc protocol (C17), not the dunder
+                call = {'__add__': lambda: x + data, '__sub__': lambda: x - data, '__mul__': lambda: x * data,
+                        '__truediv__': lambda: x / data,
+                        '__iadd__': lambda: _o.iadd(x, data), '__isub__': lambda: _o.isub(x, data),
+                        '__imul__': lambda: _o.imul(x, data), '__itruediv__': lambda: _o.itruediv(x, data),
+                        '__radd__': (lambda: data + x) if natural else (lambda: x.__radd__(data)),
+                        '__rsub__': (lambda: data - x) if natural else (lambda: x.__rsub__(data)),
+                        '__rmul__': (lambda: data * x) if natural else (lambda: x.__rmul__(data)),
+                        '__rtruediv__': (lambda: data / x) if natural else (lambda: x.__rtruediv__(data))}[dn]
+                res = call()
+                opn = {'__add__': 'OAdd', '__radd__': 'OAdd', '__iadd__': 'OIAdd', '__sub__': 'OSub', '__isub__': 'OISub',
+                       '__rsub__': 'ORSub', '__mul__': 'OMul', '__rmul__': 'OMul', '__imul__': 'OIMul',
+                       '__truediv__': 'OTrueDiv', '__itruediv__': 'OITrueDiv', '__rtruediv__': 'ORTrueDiv'}[dn]
+                if dn.startswith('__i'):
+                    assert res is x
+                    wop = 'WData %s %s %s %s' % (opn, tx, th, tx)
+                else:
+                    assert res is not x
+                    wop = 'WData %s %s %s %s' % (opn, tx, th, ctx.term(res, True))
             elif op in ('add_arr', 'iadd_arr', 'sub_arr', 'rsub_arr', 'mul_arr', 'imul_arr', 'truediv_arr'):
                 # array-like operand: the operator builds space.element(other) and calls itself again
                 def nested(el):
@@ -682,6 +724,17 @@ def space_case(rng, recipe, op, poison=False, special=False):
                 else:
                     res = space.divide(x, y) if op == 'divide_noout' else x.divide(y)
                     wop = 'WDivide %s %s %s' % (tx, ty, ctx.term(res, True))
+            elif op == 'pow':
+                pw = rng.randint(0, 5)
+                desc['p'] = pw
+                res = x ** pw
+                assert res is not x
+                wop = 'WPow %s %s %d %s %s %s' % (C.b(_is_pse(x)), tx, pw, ctx.term(res, True), ctx.hidden_like(x),
+                                                 ctx.hidden_like(x))
+            elif op == 'lincomb_noout':
+                a, b = rng.choice(CX_PAIRS if cxs else (INT_PAIRS[:11] if bases == {'int'} else REAL_PAIRS))
+                res = space.lincomb(a, x, b, y)
+                wop = 'WLincomb2 %s %s %s %s %s' % (cl(a), tx, cl(b), ty, ctx.term(res, True))
             elif op == 'ipow_neg':
                 pw = rng.randint(1, 3)
                 desc['p'] = -pw
@@ -704,7 +757,9 @@ def space_case(rng, recipe, op, poison=False, special=False):
             err = 1
             if 'wop' not in dir():
                 wop = None
-    if err:
+    if err and op.startswith('data:'):
+        wop = 'WData %s %s %s %s' % ('OTrueDiv', tx, ty, ctx.hidden_like(x))
+    elif err:
         # the operation raised a casting error (true division into an integer array)
         nm = {'itruediv': 'WITrueDiv %s %s' % (tx, ty), 'truediv': 'WTrueDiv %s %s %s' % (tx, ty, ctx.hidden_like(x)),
               'rtruediv': 'WRTrueDiv %s %s %s' % (tx, ty, ctx.hidden_like(x)),
@@ -783,7 +838,10 @@ OPS = ['lincomb2', 'lincomb1', 'multiply', 'divide', 'assign', 'set_zero', 'copy
        'iadd_s', 'isub_s', 'imul_s', 'itruediv_s', 'add_s', 'radd_s', 'sub_s', 'rsub_s', 'mul_s', 'rmul_s',
        'truediv_s', 'rtruediv_s', 'neg', 'pos', 'ipow', 'ipow_neg',
        'add_arr', 'iadd_arr', 'sub_arr', 'rsub_arr', 'mul_arr', 'imul_arr', 'truediv_arr',
-       'el_lincomb', 'multiply_noout', 'divide_noout', 'el_multiply', 'el_divide']
+       'el_lincomb', 'multiply_noout', 'divide_noout', 'el_multiply', 'el_divide', 'pow', 'lincomb_noout']
+DATA_DUNDERS = ['__add__', '__radd__', '__iadd__', '__sub__', '__rsub__', '__isub__', '__mul__', '__rmul__', '__imul__',
+                '__truediv__', '__rtruediv__', '__itruediv__']
+DATA_OPS = ['data:%s:%s' % (d, k) for d in DATA_DUNDERS for k in ('list', 'tuple', 'ndarray')]
 
 
 def rand_recipe(rng, base, depth):
@@ -812,7 +870,7 @@ def space_cases(rng, tier, S):
              ('P', [('T', 'float64', (3,)), ('T', 'int64', (3,))]),
              ('P', [('T', 'int64', (3,))] * 2),
              ('P', [('T', 'float64', (1,))])]
-    nrand = 10 if quick else 60
+    nrand = 4 if quick else 60
     recipes = list(fixed)
     for _ in range(nrand):
         recipes.append(rand_recipe(rng, rng.choice(['real', 'real', 'cx', 'int', 'mixed']), rng.randint(1, 3)))
@@ -827,6 +885,22 @@ def space_cases(rng, tier, S):
         if 'int' not in bases:
             for op in (OPS if not quick else rng.sample(OPS, 14)):
                 S.put('sp', 'x', space_case(rng, r, op, poison=True), CHECKW, 'caseW %s')
+    # every binary operator (out-of-place, reflected, in-place) with the other operand given as plain data:
+    # nested list, nested tuple, ndarray (list of ndarrays for product spaces) -- the array-like fallback
+    # branches of the overloads (wrap with space.element, re-dispatch)
+    data_recipes = [('T', 'float64', (3,)), ('T', 'float64', (2, 3)), ('D', 'float64', (4,)), ('D', 'float64', (3, 2)),
+                    ('T', 'complex128', (3,)), ('T', 'int64', (3,)), ('T', 'float64', (100,)),
+                    ('P', [('T', 'float64', (3,)), ('D', 'float64', (2,))]),
+                    ('P', [('T', 'float64', (2,))] * 3),
+                    ('P', [('P', [('T', 'float64', (2,)), ('D', 'float64', (2, 2))]), ('T', 'float64', (3,))])]
+    if not quick:
+        data_recipes += [rand_recipe(rng, rng.choice(['real', 'cx', 'mixed']), rng.randint(1, 3)) for _ in range(12)]
+    for r in data_recipes:
+        for op in DATA_OPS:
+            S.put('sp', 'x', space_case(rng, r, op), CHECKW, 'caseW %s')
+    for r in data_recipes[:5] + data_recipes[7:10]:
+        for op in rng.sample(DATA_OPS, 8 if quick else 24):
+            S.put('sp', 'x', space_case(rng, r, op, poison=True), CHECKW, 'caseW %s')
     # zeros / inf / nan in operands of the multiply / divide family (IEEE result at every entry,
     # non-finite = None at the poisoned carrier), old contents of explicit outputs NaN or finite
     for r in [rc for rc in recipes if 'int' not in set(DT[l[1]][0] for l in leaf_recipes(rc))][:(14 if quick else 40)]:
@@ -854,7 +928,34 @@ def translate():
     return {'Gen/Lincomb.v': TL.translate(), 'Gen/SpaceOps.v': TS.translate()}
 
 
+_COV = {}
+
+
+def extra_coverage():
+    return {'operator_line_coverage_during_correspondence': dict(_COV)}
+
+
+def _traced_functions():
+    from odl.set.space import LinearSpace, LinearSpaceElement as E
+    from odl.space import pspace, npy_tensors
+    fs = [LinearSpace.lincomb, LinearSpace.multiply, LinearSpace.divide, npy_tensors._lincomb_impl,
+          npy_tensors._blas_is_applicable, pspace.ProductSpaceElement.__add__]
+    for nm in ('assign', 'copy', 'set_zero', 'lincomb', 'multiply', 'divide', '__iadd__', '__add__', '__radd__', '__isub__',
+               '__sub__', '__rsub__', '__imul__', '__mul__', '__rmul__', '__itruediv__', '__truediv__', '__rtruediv__',
+               '__ipow__', '__pow__', '__neg__', '__pos__'):
+        fs.append(getattr(E, nm))
+    return fs
+
+
 def correspondence(rng, tier):
+    with C.LineTrace(_traced_functions()) as lt:
+        res = _correspondence(rng, tier)
+    _COV.clear()
+    _COV.update(lt.report())
+    return res
+
+
+def _correspondence(rng, tier):
     S = Sets()
     lincomb_cases(rng, tier, S)
     space_cases(rng, tier, S)
@@ -1031,6 +1132,58 @@ def oracle(kind, **p):
             if y is not x and op != 'assign':
                 ok = ok and val(y) == py
             return ok, got[:4], want[:4]
+        if kind == 'data_op':
+            # binary operator with the other operand given as plain data (nested list / tuple / ndarray):
+            # entry-wise NumPy result on copies; in-place returns self; the data object is not modified
+            import random as _r, operator as _o, copy as _c
+            prng = _r.Random(p['seed'])
+            recipe, dn, dk = p['recipe'], p['dunder'], p['data']
+            x = mk_element(prng, recipe, 'div' if dn == '__rtruediv__' else 'any')
+            y = mk_element(prng, recipe, 'div' if dn in ('__truediv__', '__itruediv__') else 'any')
+
+            def as_data(el):
+                if _is_pse(el):
+                    parts = [as_data(pp) for pp in el.parts]
+                    return tuple(parts) if dk == 'tuple' else parts
+                arr_ = np.array(np.asarray(el), copy=True)
+                if dk == 'ndarray':
+                    return arr_
+                if dk == 'tuple':
+                    return tuple(arr_.tolist()) if arr_.ndim == 1 else tuple(map(tuple, arr_.reshape(arr_.shape[0], -1).tolist())) \
+                        if arr_.ndim == 2 else arr_.tolist()
+                return arr_.tolist()
+            data = as_data(y)
+            keep = _c.deepcopy(data)
+            lx = [np.array(t.data, copy=True) for t in leaf_tensors(x)]
+            ly = [np.array(t.data, copy=True) for t in leaf_tensors(y)]
+            f = {'add': lambda u, v: u + v, 'sub': lambda u, v: u - v, 'rsub': lambda u, v: v - u, 'mul': lambda u, v: u * v,
+                 'truediv': lambda u, v: u / v, 'rtruediv': lambda u, v: v / u}[dn.strip('_').lstrip('i') if dn not in ('__radd__', '__rmul__', '__rsub__', '__rtruediv__', '__isub__', '__imul__', '__iadd__', '__itruediv__') else
+                                                                                {'__radd__': 'add', '__rmul__': 'mul', '__rsub__': 'rsub', '__rtruediv__': 'rtruediv', '__isub__': 'sub', '__imul__': 'mul', '__iadd__': 'add', '__itruediv__': 'truediv'}[dn]]
+            want = [f(u, v) for u, v in zip(lx, ly)]
+            natural = dk != 'ndarray'
+            call = {'__add__': lambda: x + data, '__sub__': lambda: x - data, '__mul__': lambda: x * data,
+                    '__truediv__': lambda: x / data, '__iadd__': lambda: _o.iadd(x, data), '__isub__': lambda: _o.isub(x, data),
+                    '__imul__': lambda: _o.imul(x, data), '__itruediv__': lambda: _o.itruediv(x, data),
+                    '__radd__': (lambda: data + x) if natural else (lambda: x.__radd__(data)),
+                    '__rsub__': (lambda: data - x) if natural else (lambda: x.__rsub__(data)),
+                    '__rmul__': (lambda: data * x) if natural else (lambda: x.__rmul__(data)),
+                    '__rtruediv__': (lambda: data / x) if natural else (lambda: x.__rtruediv__(data))}[dn]
+            res = call()
+            got = [np.asarray(t.data) for t in leaf_tensors(res)]
+            ok = len(got) == len(want) and all(_close(gv, wv, gv.dtype) for gv, wv in zip(got, want))
+            if dn.startswith('__i'):
+                ok = ok and res is x
+            else:
+                ok = ok and res is not x and all(np.array_equal(t.data, u) for t, u in zip(leaf_tensors(x), lx))
+
+            def same_data(a_, b_):
+                if isinstance(a_, np.ndarray):
+                    return np.array_equal(a_, b_)
+                if isinstance(a_, (list, tuple)):
+                    return type(a_) is type(b_) and len(a_) == len(b_) and all(same_data(u, v) for u, v in zip(a_, b_))
+                return a_ == b_
+            ok = ok and same_data(data, keep)
+            return ok, [gv.ravel()[:4].tolist() for gv in got][:3], [np.asarray(wv).ravel()[:4].tolist() for wv in want][:3]
         if kind == 'reject':
             # operands from another space are rejected with an exception and nothing is modified
             import random as _r
@@ -1264,7 +1417,7 @@ def probes(rng, tier):
     # 1f. integer spaces with entries beyond 2**53, exact comparison with Python integers
     for dtype in ('int64', 'uint64'):
         for sk in ('tensor', 'discr', 'pspace'):
-            for n in (3, 120):
+            for n in ((3, 120) if (sk == 'tensor' or not quick) else (3,)):
                 for alias in ALIAS:
                     for a, b in [(1, 1), (1, -1), (-1, 1), (0, 1), (1, 0), (2, -1)]:
                         neg = (a < 0 or b < 0) and dtype == 'uint64'
@@ -1280,6 +1433,19 @@ def probes(rng, tier):
                                '%s %s(%d): %s%s with entries up to 2**60, exact' % (sk, dtype, n, op, ' (self)' if same else ''),
                                'int_exact', dtype=dtype, n=n, op=op, same=same, space=sk, c=rng.choice([1, 2, 3]),
                                seed=rng.randint(0, 10 ** 6))
+    # 1h. every binary operator with the other operand as plain data (the array-like fallback branches)
+    drecipes = [('T', 'float64', (3,)), ('T', 'float64', (2, 3)), ('D', 'float64', (4,)), ('D', 'complex128', (2, 2)),
+                ('T', 'float32', (120,)), ('P', [('T', 'float64', (3,)), ('D', 'float64', (2,))]),
+                ('P', [('T', 'float64', (2,))] * 3),
+                ('P', [('P', [('T', 'float64', (2,)), ('D', 'float64', (2, 2))]), ('T', 'float64', (3,))])]
+    if not quick:
+        drecipes += [rand_recipe(rng, rng.choice(['real', 'cx']), rng.randint(1, 3)) for _ in range(10)]
+    for r in drecipes:
+        for dn in DATA_DUNDERS:
+            for dk in ('list', 'tuple', 'ndarray'):
+                _probe(out, 'data-operand-%s-%s-%s' % (dn.strip('_'), dk, _spacekind(r)),
+                       '%s with the other operand given as %s on %r vs NumPy on the leaves' % (dn, dk, r),
+                       'data_op', recipe=r, dunder=dn, data=dk, seed=rng.randint(0, 10 ** 6))
     # 1g. operands that are not elements of the space are rejected and nothing is modified
     pairs_r = [(('T', 'float64', (3,)), ('T', 'float64', (4,))), (('T', 'float64', (3,)), ('T', 'float32', (3,))),
                (('T', 'float64', (3,)), ('T', 'complex128', (3,))), (('D', 'float64', (3,)), ('T', 'float64', (3,))),
@@ -1349,7 +1515,9 @@ RULE = ('tensor level: space.lincomb(a, x1, b, x2, out) on tensor spaces; every 
         'whole-array case per alias pattern and main dtype; the same with NaN in every buffer the call must not read and with NaN '
         'inside an operand (poisoned carrier option Q).  space level: 32 public operations (lincomb with and without '
         'b, multiply, divide, assign, copy, set_zero, + - * / with element and scalar, reflected and in-place forms, '
-        'neg, pos, **=) and 12 power-space broadcasting forms on tensor, uniform_discr and nested/power product '
+        'neg, pos, **=, ** with positive and negative exponents, no-out and element-method forms), every binary '
+        'operator (out-of-place, reflected, in-place) with the other operand given as plain data (nested list, nested '
+        'tuple, ndarray / list of ndarrays) and 12 power-space broadcasting forms on tensor, uniform_discr and nested/power product '
         'spaces (fixed list + random trees of depth <= 3, mixed float/int leaves), with `other is self`, shared '
         'components and poisoned temporaries.  Inputs are small integers / dyadic scalars so float arithmetic is '
         'exact; all buffers (not only out) are compared after the call.  A case is distinct by (operation, dtype or '
